@@ -25,7 +25,8 @@ func init() {
 			"R2c manifest JSON is decoded as a whole (json.Unmarshal, or a Decoder that is asked for more); R5 no repository is ever removed from Registry.repos. " +
 			"R1b (shared with C01.R1) CheckDescriptor returns nil for data only after the digest and the size comparison, whatever the length of the data. " +
 			"R6 (shared with C01.R5 / C01.R8 / C14.R6) the bytes stored for a digest are the registry's own copy and a stored blob is never modified. " +
-			"R7 GetBlobRange treats only a negative upper bound as \"to the end\" (every comparison of o1 with 0 is < or >=).",
+			"R7 GetBlobRange treats only a negative upper bound as \"to the end\" (every comparison of o1 with 0 is < or >=). " +
+			"R8 DeleteBlob / DeleteManifest answer DENIED (content reachable from a tag) only where the lookup of the digest has already succeeded: deleting what is not there stays *_UNKNOWN in immutable-tags mode.",
 		NotDecided: "equivalence with the reference model over operation histories (found-until-deleted, last-tag-wins, referrers set equality, which histories succeed) is not decided.",
 		Technique:  "static analysis: SSA dominance of lookup-miss conditions over returns, %w provenance of error values, switch exhaustiveness",
 	})
@@ -186,6 +187,7 @@ func runC02(c *core.Ctx) {
 	relabel(c, "C02.R6", func() { c01Immutability(c) })
 	storedBlobDataNeverReassigned(c, "C02.R6")
 	negativeMeansToTheEnd(c, "C02.R7", "ocimem")
+	deniedOnlyForExistingContent(c, "C02.R8")
 	reposNeverForgotten(c, "C02.R5")
 	c05SortedIn(c, "C02.R3", []string{"ocimem"})
 	// R4: a failed operation leaves tags/manifests/blobs untouched (a rejected
